@@ -1,0 +1,26 @@
+//go:build verif
+// +build verif
+
+// Read-only entry points to the unexported sortition functions for the verification harness
+// under /verif (property C04).  Compiled only with -tags verif; add-only: nothing here changes
+// the behaviour of the package.
+
+package ucon
+
+import (
+	"math/big"
+
+	"github.com/youchainhq/go-youchain/common"
+)
+
+// VerifChoose presents a chosen VRF output to choose(): the exported VrfSortition only reaches
+// it with the (random) output of the VRF.  p is derived exactly as VrfSortition derives it.
+func VerifChoose(hash common.Hash, stake *big.Int, threshold uint64, totalStake *big.Int) int64 {
+	pFloat, _ := new(big.Float).Quo(new(big.Float).SetUint64(threshold), new(big.Float).SetInt(totalStake)).Float64()
+	return choose(hash, stake, pFloat)
+}
+
+// VerifComputePriority is computePriority.
+func VerifComputePriority(hash common.Hash, j int64) common.Hash {
+	return computePriority(hash, big.NewInt(j))
+}
